@@ -698,9 +698,9 @@ func c19Eval(r *vrt.Run, c C19Case, work string) c19Out {
 }
 
 var c19Names = []string{"a.txt", "data.bin", "with space.dat", "x.y.z", "archive.knz", "noext", "UPPER.TXT", ".hidden", "long_name_0123456789_abcdefghij.log", "é-utf8.txt",
-	"none", "stdout", "NONE", "b"}
+	"none", "stdout", "NONE", "b", "back\\slash.txt", "semi;colon & amp.txt", "-dash-first"}
 var c19Spells = []string{"", "", "dot-slash", "trailing-slash", "dot-slash-trailing", "abs", "dotdot", "double-slash", "cwd-dot", "norec", "named-dot"}
-var c19Dirs = []string{"", "", "sub", "sub/deeper", "other dir", "sub/deeper/deepest"}
+var c19Dirs = []string{"", "", "sub", "sub/deeper", "other dir", "sub/deeper/deepest", "back\\slash", "sub/dir.with.dots", "sub/trailing.dot."}
 
 func drawC19(t *rapid.T, maxFile int, scenarios []string) C19Case {
 	var c C19Case
